@@ -40,7 +40,7 @@ func (x *ctx) checkUndirected(name string, ug graph.Undirected, ids []int64) *vk
 		nb := append(m.from(u), m.to(u)...)
 		slices.Sort(nb)
 		nb = slices.Compact(nb)
-		if f := x.checkIter(nodesView(fmt.Sprintf("%s.From(%d)", name, u), ug.From(u)), x.wantNodes(nb)); f != nil {
+		if f := x.checkIter(nodesView(name+".From", ug.From(u)).with(u), x.wantNodes(nb)); f != nil {
 			return f
 		}
 		for _, v := range ids {
